@@ -54,10 +54,10 @@ Section Theorems.
   Lemma ok_after : forall rg s d, ok (after (fn (d_id d)) fixed rg s d).
   Proof. intros. unfold ok. rewrite after_id. apply after_state_ok. Qed.
 
-  Lemma ok_tomb : forall d, tombstoned d = true -> ok d.
+  Lemma ok_none : forall rg s d, resync_doc (fn (d_id d)) fixed rg s d = None -> ok d.
   Proof.
-    intros d H. unfold ok, state_ok. unfold tombstoned in H. destruct (d_cur d) as [[[r b] del]|]; [|exact I].
-    subst del. exact I.
+    intros rg s d H. unfold ok, state_ok. destruct (d_cur d) as [[[r b] del]|] eqn:Hc; [|exact I].
+    destruct del; [exact I|]. destruct (resync_doc_none _ _ _ _ _ _ _ _ H Hc) as [H1 [H2 [H3 _]]]. auto.
   Qed.
 
   Lemma ok_put : forall d w d', d_id d = w_doc w -> put_doc empty (fn (w_doc w)) d w = Some d' -> ok d \/ d_cur d = None -> ok d'.
@@ -74,7 +74,7 @@ Section Theorems.
   Proof.
     intros ops st0 B Hs st Hc d Hd Hcol.
     apply (completed_good body empty col_of syncs allcols fixed ok true (fun _ => true) (fun _ => true)
-             (fun rg s d _ _ => ok_after rg s d) ok_tomb (fun _ => ok_put) ops st0 B Hs); try assumption.
+             (fun rg s d _ _ => ok_after rg s d) (fun rg s d _ H => ok_none rg s d H) (fun _ => ok_put) ops st0 B Hs); try assumption.
     apply Forall_forall. intros op _. destruct op; cbn; auto.
   Qed.
 
@@ -129,7 +129,7 @@ Section Theorems.
         (destruct (negb (subset N.eqb (if null cols then allcols else cols) allcols)); apply H; exact Hd).
     - unfold do_visit in Hd. destruct (r_state st); try (apply H; exact Hd).
       destruct (qget (r_queue st) c) as [|e q']; [apply H; exact Hd|].
-      destruct (e_tomb e); [apply H; exact Hd|]. cbn in Hd. apply visit_docs_in in Hd. destruct Hd as [d1 [Hd1 ->]].
+      destruct (e_skip e); [apply H; exact Hd|]. cbn in Hd. apply visit_docs_in in Hd. destruct Hd as [d1 [Hd1 ->]].
       destruct (d_id d1 =? e_id e) eqn:E; [|apply H; exact Hd1].
       apply N.eqb_eq in E. rewrite <- E. destruct (after_top (r_regen st) s d1) as [-> | Hn]; [apply H; exact Hd1 | right; exact Hn].
     - unfold do_stop in Hd. destruct (r_state st); apply H; exact Hd.
@@ -160,7 +160,7 @@ Section Theorems.
     - unfold do_start. destruct (r_state st); try exact H;
         (destruct (negb (subset N.eqb (if null cols then allcols else cols) allcols)); exact H).
     - unfold do_visit. destruct (r_state st); try exact H. destruct (qget (r_queue st) c) as [|e q']; [exact H|].
-      destruct (e_tomb e); [exact H|]. cbn. unfold visit_docs. apply Forall2_map_r; [|exact H].
+      destruct (e_skip e); [exact H|]. cbn. unfold visit_docs. apply Forall2_map_r; [|exact H].
       intros d0 d [H1 [H2 H3]]. destruct (d_id d =? e_id e); [|split; auto].
       split; [rewrite after_id; exact H1|]. split; [rewrite after_cur; exact H2|].
       intros Hl. rewrite (H3 Hl). apply after_dead. exact Hl.
@@ -184,10 +184,13 @@ Section Theorems.
   Lemma quiet_after : forall rg s d, quiet (after (fn (d_id d)) fixed rg s d).
   Proof. intros rg s d s'. rewrite after_id. apply resync_doc_idem. Qed.
 
-  Lemma quiet_tomb : forall d, tombstoned d = true -> quiet d.
+  Lemma quiet_none : forall rg s d, resync_doc (fn (d_id d)) fixed rg s d = None -> quiet d.
   Proof.
-    intros d H s. apply resync_doc_dead. unfold live_b. unfold tombstoned in H.
-    destruct (d_cur d) as [[[r b] del]|]; [subst del|]; reflexivity.
+    intros rg s d H s'. unfold resync_doc in *. destruct (d_cur d) as [[[r b] del]|]; [|reflexivity].
+    destruct del; [reflexivity|].
+    match type of H with (if ?c then _ else _) = _ => destruct c eqn:E end; [discriminate|].
+    apply orb_false_iff in E. destruct E as [E E3]. apply orb_false_iff in E. destruct E as [E _].
+    rewrite E, E3. reflexivity.
   Qed.
 
   Lemma after_noregen : forall f s s' (d : doc), after f fixed false s d = after f fixed false s' d.
@@ -223,7 +226,7 @@ Section Theorems.
     - unfold do_visit. destruct (r_state st) eqn:Es; try exact Hno.
       destruct (qget (r_queue st) c) as [|e q'] eqn:Eq; [exact Hno|].
       assert (Hc : r_cols st = cs) by (apply P3; discriminate).
-      destruct (e_tomb e); [unfold PInv; cbn; split; [exact P1|]; split; [intros _; apply P2; reflexivity | intros _; exact Hc]|].
+      destruct (e_skip e); [unfold PInv; cbn; split; [exact P1|]; split; [intros _; apply P2; reflexivity | intros _; exact Hc]|].
       assert (Hsel : In (col_of (e_id e)) cs).
       { destruct (b_queue _ _ st B c e) as [H1 H2]; [rewrite Eq; left; reflexivity|]. rewrite H1, <- Hc. exact H2. }
       unfold PInv. cbn. rewrite (P2 eq_refl). split; [|split; [intros _; reflexivity | intros _; exact Hc]].
@@ -282,7 +285,7 @@ Section Theorems.
     assert (Hq : forall d, In d (r_docs st) -> In (col d) cs -> quiet d).
     { intros d Hd Hcol. rewrite <- Hcols in Hcol.
       apply (completed_good body empty col_of syncs allcols fixed quiet false (fun _ => true) (fun _ => true)
-               (fun rg s d _ _ => quiet_after rg s d) quiet_tomb (fun (H : false = true) => ltac:(discriminate)) ops st0 B Hs (plain_opok cs ops F) Hc d Hd Hcol). }
+               (fun rg s d _ _ => quiet_after rg s d) (fun rg s d _ H => quiet_none rg s d H) (fun (H : false = true) => ltac:(discriminate)) ops st0 B Hs (plain_opok cs ops F) Hc d Hd Hcol). }
     apply fresh_eq; assumption.
   Qed.
 End Theorems.
